@@ -142,7 +142,8 @@ class Block:
         # successor i keeps its position (0 = true edge / first case); None when clang proved it unreachable
         self.succ = [s if (s is not None and s >= 0) else None for s in d["succ"]]
         self.label = d.get("label")
-        self.ev = d["ev"]
+        # a call whose use could not be determined sits in an unevaluated operand (typeof(code) in WITH_MODULE): not an event
+        self.ev = [e for e in d["ev"] if not (e["k"] == "call" and e.get("use") == "unknown")]
         self.term = d.get("term")
         if self.term and "cond" in self.term:
             # clang reports the whole `a && b` / `a || b` as the condition of the block that ends the if/while/for,
@@ -306,6 +307,72 @@ class Func:
     def returns(self):
         for b, i, e in self.events("return"):
             yield b, i, e
+
+    def liveness(self):
+        """block id -> set of variable ids live at block entry (classic backward may-analysis over the events' trees;
+        any variable whose address is taken is treated as always live)."""
+        if getattr(self, "_live", None) is not None:
+            return self._live
+        use, dfn = {}, {}
+        always = set()
+
+        def reads(e):
+            out = set()
+            trees = []
+            if e["k"] == "call":
+                trees = [a.get("tree") for a in e.get("args", [])] + [e.get("callee_tree")]
+            elif e["k"] == "assign":
+                trees = [e.get("rhs", {}).get("tree")]
+                # compound assignment and stores through the variable read it as well
+                if e.get("op") != "=" or e.get("deref") or e.get("lhs") != e.get("base"):
+                    trees.append(e.get("lhs_tree"))
+            elif e["k"] == "decl":
+                trees = [e.get("init", {}).get("tree")]
+            elif e["k"] == "return":
+                trees = [e.get("expr", {}).get("tree")]
+            elif e["k"] in ("deref", "subscript"):
+                trees = [e.get("tree"), e.get("index", {}).get("tree"), e.get("basex", {}).get("tree")]
+            elif e["k"] == "assert":
+                trees = [e.get("cond", {}).get("tree")]
+            for t in trees:
+                for n in walk(t):
+                    if n[0] == "var":
+                        out.add(n[1])
+                    elif n[0] == "un" and n[1] == "&":
+                        for m in walk(n[2]):
+                            if m[0] == "var":
+                                always.add(m[1])
+            return out
+        for b in self.blocks.values():
+            u, d = set(), set()
+            for e in b.ev:
+                r = reads(e)
+                u |= (r - d)
+                if e["k"] == "assign" and e.get("base_id") and not e.get("deref") and e.get("lhs") == e.get("base") and e.get("op") == "=":
+                    d.add(e["base_id"])
+                elif e["k"] == "decl":
+                    d.add(e["id"])
+            if b.term and "cond" in b.term:
+                for n in walk(b.term["cond"].get("full_tree") or b.term["cond"]["tree"]):
+                    if n[0] == "var" and n[1] not in d:
+                        u.add(n[1])
+            use[b.id], dfn[b.id] = u, d
+        live_in = {b: set() for b in self.blocks}
+        changed = True
+        while changed:
+            changed = False
+            for bid in sorted(self.blocks):
+                out = set()
+                for s_ in self.blocks[bid].succs():
+                    out |= live_in[s_]
+                new = use[bid] | (out - dfn[bid])
+                if new != live_in[bid]:
+                    live_in[bid] = new
+                    changed = True
+        for bid in live_in:
+            live_in[bid] |= always
+        self._live = live_in
+        return live_in
 
     def loops(self):
         """Natural loops: list of (header, set(body blocks)) from back edges."""
